@@ -291,7 +291,7 @@ UNITS += [
 SATELLITES = [("C02", ["blob_constants", "BlobLocation", "BlobLocations", "from_blob_location", "can_coalesce", "append", "coalesce", "PackToDo", "RepackReason", "PackInfo", "PrunePack", "CopyPackBlobs", "RestorePackInfo", "restore_packinfo_coalesce", "FileLocation", "restore_read_of_blob", "restore_needed_pack"])]
 
 META = {"not_covered": [
-    "restore_contents outside its per-destination write task (thread pool, reading/decrypting the pack range, the unwrap()s), set_metadata, the closure process_node of collect_and_prepare, LocalDestination (syscalls; set_length/write_at/read_at are ASSUMED to behave as ftruncate/pwrite/pread)",
+    "restore_contents outside its per-destination write task (thread pool, reading/decrypting the pack range, the unwrap()s), set_metadata (the closures process_existing / process_node of collect_and_prepare ARE units; RestorePlan::add_file is a stub there, its blob loop the unit add_file_blobs), LocalDestination (syscalls; set_length/write_at/read_at are ASSUMED to behave as ftruncate/pwrite/pread)",
     "walkdir order (ascending by path, component-wise) and NodeStreamer order are ASSUMED sorted in the merge unit",
     "LocalDestination::path joining the streamed relative path onto the destination (std Path::join of a confined relative path)",
     "is_plain_name itself (assumed to decide 'one normal component' per std::path::Path::components)",
